@@ -118,6 +118,7 @@ def run(ctx):
     sets = []     # (harness, label, ac)
     cases = {"same": [], "noac": [], "mix": []}
     meta, mlines = {}, []
+    ties, tmeta = [], {}
     for label, h, types, ac in (("same", hs, SAME_TYPES, 1), ("noac", hn, NOAC_TYPES, 0)):
         for ty in types:
             for bs in SAME_BASES:
@@ -136,6 +137,11 @@ def run(ctx):
                             for o in B.CMPS:
                                 mlines.append(f"{cid}.{o} {cls} std (cmp {ac} {o} {U} {U} {d} {mp} {mq})")
                             mlines.append(f"{cid}.pc {cls} std (pcmp {ac} {U} {U} {d} {mp} {mq})")
+                    if label == "same" and STYPES[ty]["cls"] == "q":
+                        for (n1, d1, k) in ((1, 2, 2), (2, 4, 3), (-3, 7, 2), (0, 1, 5), (5, 3, -1)):
+                            tcid = f"tie{len(ties)}"
+                            ties.append((tcid, slot, ["tie", str(n1), str(d1), str(k)]))
+                            tmeta[tcid] = (ty, bs, qm, slot)
     coefs = C06.coef_table(t, MIX_TYPES)
 
     def factor(ty, bs, dim):
@@ -185,6 +191,8 @@ def run(ctx):
                            "log": h.build_log[-3000:]}, no_input=True)
             return
         impl.update(h.run(cases[label]))
+        if label == "same":
+            impl.update(h.run(ties))
     model = coqbuild.run_model(mlines)
     ctx.log(f"implementation answered {len(impl)}, model answered {len(model)}")
     ctx.vm_crosscheck(mlines, model)
@@ -192,6 +200,21 @@ def run(ctx):
     spec_fail, disagreements = [], []
     distinct = set()
     hist = {}
+    # ties between equal but distinguishable operands (unreduced ratios): max / min / clamp must pick the operand the storage type picks
+    tie_bad = []
+    for tcid, slot, args in ties:
+        got = impl.get(tcid)
+        f = (got or "").split(" ")
+        if got in (None, "PANIC", "BADOP") or len(f) != 6:
+            tie_bad.append((tcid, f"harness answered {got}"))
+        elif f[:3] != f[3:]:
+            tie_bad.append((tcid, f"Ord::max/min/clamp of {args[1]}/{args[2]} and its multiple by {args[3]}: quantity gives {f[0]} {f[1]} {f[2]}, the storage type {f[3]} {f[4]} {f[5]}"))
+    for tcid, why in tie_bad[:3]:
+        ty_, bs_, qm_, slot_ = tmeta[tcid]
+        args_ = next(a for c, s_, a in ties if c == tcid)
+        ctx.violation({"kind": "comparison tie", "storage": ty_, "base_set": bs_, "quantity": qm_, "args": args_, "implementation": impl.get(tcid),
+                       "spec": "C10: max/min/clamp agree with the storage type's (which of two equal operands is returned is observable for unreduced ratios)", "detail": why,
+                       "harness": {"features": hs.features, "prelude": hs.prelude, "cases": [{"slot_body": hs.slots[slot_], "args": args_, "model": None}]}})
     rows = {}
     for label in ("same", "noac", "mix"):
         for cid, slot, args in cases[label]:
@@ -232,6 +255,8 @@ def run(ctx):
                         probs.append("equal quantities hash differently")
                 else:
                     mx, mn = f[3], f[4]
+                    if len(f) >= 9 and (mx, mn) != (f[7], f[8]):
+                        probs.append(f"float max/min = {mx}/{mn}, the storage type's own max/min of the stored values = {f[7]}/{f[8]}")
                     # float max/min: NaN-ignoring; the result must be one of the operands and bound the other
                     if not (FC.is_nan_bits(x, ty) or FC.is_nan_bits(y, ty)):
                         tx, ty_ = VG.val_text(ty, x), VG.val_text(ty, y)
@@ -291,6 +316,7 @@ def run(ctx):
     cov = ctx.coverage
     cov["evaluations"] = sum(len(v) for v in cases.values())
     cov["distinct_nontrivial"] = len(distinct)
+    cov["tie_cases"] = len(ties)
     cov["rule"] = ("row = all observations (== != < <= > >= partial_cmp, and cmp/max/min/clamp/hash for Ord storage) of one ordered pair; streams: "
                    "same-type rows for 8 storage types x {SI, km-g-h} bases x 3 quantities, both operand orders (with autoconvert, and f32/f64 "
                    "without autoconvert); mixed-base rows for f64/f32/BigRational x 4 quantities x 16 ordered base pairs with physically equal, "
